@@ -84,7 +84,18 @@ def gen(k: int, m: '{B}' = None) -> Iterator[int]:
 class {M}(int):
     pass
 """
-    parts = [fn] if shape["fn_first"] else []
+    # two classes LOCAL to a function that spell the same late reference the same way (typing caches Optional['Name'] objects)
+    local = f"""
+def _local_classes():
+    class L1(Schema):
+        t: Optional['{B}'] = None
+    class L2(Schema):
+        t: Optional['{B}'] = None
+        u: int = 0
+    return L1, L2
+L1, L2 = _local_classes()
+"""
+    parts = [local] + ([fn] if shape["fn_first"] else [])
     parts += [cls_b, cls_a] if b_first else [cls_a, cls_b]
     if not shape["fn_first"]:
         parts.append(fn)
@@ -98,6 +109,7 @@ CALLS = [
     ["from", "A", {"v": 1, "bs": [{"w": "x", "a": {"v": 3}}]}, {}], ["from", "B", {"w": 1, "a": {"v": "2", "amt": 100}}, {}], ["from", "B", {"w": "s", "a": {"v": 2, "amt": 0}}, {}],
     ["from", "B", {}, {}], ["call", "fn", {"args": [{"v": 3}]}, {}], ["call", "fn", {"args": [{"v": 3}, 500]}, {}], ["call", "fn", {"args": [{"v": 3, "bs": [{"w": 1}]}, "7"]}, {}],
     ["call", "fn", {"args": [{"v": "x"}]}, {}], ["gen", "gen", {"args": [2]}, {}], ["gen", "gen", {"args": [1, {"w": 4}]}, {}], ["gen", "gen", {"args": [1, {"w": 4, "a": {"v": -5}}]}, {}],
+    ["from", "L1", {"t": {"w": 1}}, {}], ["from", "L2", {"t": {"w": "x"}, "u": "2"}, {}], ["from", "L1", {"t": {"w": 2, "a": {"v": -1}}}, {}], ["from", "L2", {"t": {"w": 3}}, {}],
 ]
 
 REG_SRC = """
